@@ -44,6 +44,19 @@ def _violation_worker(cases):
             except Exception as e:
                 out.setdefault("schema/validate-raises/%s/%s" % (type(e).__name__, label), ["validate_schema raises an unrelated exception", dict(wit, error=repr(e))])
                 continue
+            # the same verdict through the entry point's option that leaves resolver signatures out (none of the labelled violations
+            # concerns a resolver: the rules that are left are the same rules)
+            try:
+                validate_schema(schema, enable_resolver_validation=False)
+                raised_nr = None
+            except SchemaError as e:
+                raised_nr = e
+            except Exception as e:
+                raised_nr = raised
+                out.setdefault("schema/validate-raises/%s/without-resolver-validation/%s" % (type(e).__name__, label), ["validate_schema raises an unrelated exception", dict(wit, error=repr(e))])
+            if (raised_nr is None) != (raised is None):
+                out.setdefault("schema/verdict-depends-on-resolver-validation-option/%s/%s" % ("accepts" if raised_nr is None else "rejects", label),
+                               ["validate_schema(schema, enable_resolver_validation=False) reaches another verdict on a schema whose resolvers play no part", dict(wit, error=str(raised or raised_nr))])
             if c["valid"] and raised is not None:
                 out.setdefault("schema/valid-rejected/%s/%s" % (label, order), ["a valid schema is rejected", dict(wit, error=str(raised))])
             elif not c["valid"] and raised is None:
@@ -84,12 +97,30 @@ def _memo_worker(hists):
     from py_gql.exc import SchemaError
     out = {}
     n = 0
-    for h in hists:
+    for h, origin in [(h, o) for h in hists for o in ("built", "clone-of-a-validated-schema")]:
         schema = build_schema("type Query { strict(a: String!): Int  loose(a: String): Int  plain: Int }")
+        source = None
+        if origin != "built":
+            # gamma: the machine runs on a CLONE of a schema that has been validated and queried (its name indexes have been read);
+            # a clone is a machine of its own: what it is told never reaches its source, which stays valid throughout
+            source = schema
+            source.validate()
+            [t.field_map for t in source.types.values() if hasattr(t, "field_map")]
+            schema = source.clone()
         res = make_resolvers()
         seq = [(s["op"], s["f"], s["c"]) for s in h]
+        if origin != "built":
+            seq = [("clone", "", "")] + seq
         for i, s in enumerate(h):
             n += 1
+            if source is not None:
+                try:
+                    source.validate()
+                    from py_gql.schema.validation import validate_schema
+                    validate_schema(source)
+                except Exception as e:
+                    out.setdefault("memo/clone-changes-its-source/%s" % type(e).__name__, ["after registering resolvers on a clone the SOURCE schema no longer validates", {"sequence": seq, "step": i, "error": repr(e)[:300]}])
+                    break
             if s["op"] in ("register", "type-default", "schema-default"):
                 try:
                     if s["op"] == "register":
